@@ -102,8 +102,8 @@ static void doConnect(int e, int sig, int l, int slot) {
 static void doDisconnect(int e, int sig, int l, int slot) {
   if (!C.em[e] || !C.li[l]) return;
   Conn* victim = 0; { Host h; for (auto& c : C.conns) if (c.live && c.e == e && c.sig == sig && c.l == l && c.slot == slot) { victim = &c; break; } }
-  if (!victim) return;                      // only existing connections are disconnected (anything else is caller misuse)
-  { Host h; for (auto& m : C.stack) if (m.e == e && m.sig == sig && victim->seq > m.cursorSeq && victim->seq < outermostStart(e, sig)) probe("disconnect_pending_slot"); victim->live = false; ++C.seq; }
+  if (!victim) probe("disconnect_of_a_connection_that_does_not_exist");   /* a second disconnect, or a pair that never was connected: nothing to remove - and nothing else may change */
+  else { Host h; for (auto& m : C.stack) if (m.e == e && m.sig == sig && victim->seq > m.cursorSeq && victim->seq < outermostStart(e, sig)) probe("disconnect_pending_slot"); victim->live = false; ++C.seq; }
   if (sig == 0 && slot >= 10) Callback::disconnect(C.em[e], &MyEmitter::sigA, C.li[l], partSlot(slot));
   else if (sig == 2 && slot >= 10) Callback::disconnect(C.em[e], &MyEmitter::sigC, C.li[l], partSlot(slot));
   else if (sig == 0) { if (slot == 0) Callback::disconnect(C.em[e], &MyEmitter::sigA, C.li[l], &MyListener::sa0); else Callback::disconnect(C.em[e], &MyEmitter::sigA, C.li[l], &MyListener::sa1); }
